@@ -398,3 +398,85 @@ package commonmark
 //@   use RunStart_is(line, '#', ATXcs(line), ATXt(line), i + 1)
 //@   use LastNonWS_is(line, ATXcs(line), i + 1, result.content.End)
 //@   serves C15, C04, C03, C13, C05
+
+// ---------------------------------------------------------------------------
+// NUL padding (C01, C08): every NUL of the input is widened to three zero
+// bytes so that it can later be overwritten in place by U+FFFD (EF BF BD).
+// Z(s,a,b) = CountC(s,0,a,b) is the number of zero bytes in s[a:b).
+// ---------------------------------------------------------------------------
+
+//@ func nullCount
+//@   ensures[count] result == CountC(b, 0, 0, len(b))
+//@   loop 0: invariant[count] n == CountC(b, 0, 0, _i) && 0 <= n && n <= _i
+//@   serves C01, C08, C04
+
+//@ func unpaddedNullLength
+//@   ensures[len] result == len(b) - (CountC(b, 0, 0, len(b)) / 3) * 2
+//@   serves C01, C08, C04
+
+//@ func indentLength
+//@   ensures[run] 0 <= result && result <= len(line) && (forall k in [0, result): IsWS(line[k])) && (result == len(line) || !IsWS(line[result]))
+//@   loop 0: invariant[ws] forall k in [0, _i): IsWS(line[k])
+//@   serves C04, C02
+
+//@ func hasBytePrefix
+//@   ensures[equiv] result <==> (len(b) >= len(prefix) && (forall k in [0, len(prefix)): b[k] == prefix[k]))
+//@   loop 0: invariant[eq] forall k in [0, _i): b[k] == prefix[k]
+//@   serves C04, C13
+
+//@ func hasByteSuffix
+//@   ensures[equiv] result <==> (len(b) >= len(suffix) && (forall k in [0, len(suffix)): b[len(b) - len(suffix) + k] == suffix[k]))
+//@   loop 0: invariant[eq] forall k in [0, _i): b[len(b) - len(suffix) + k] == suffix[k]
+//@   serves C04
+
+// ---------------------------------------------------------------------------
+// Unicode classes (section 2.1).  Unicode whitespace = code points of general
+// category Zs, or tab (U+0009), line feed (U+000A), form feed (U+000C) or
+// carriage return (U+000D).  Category membership is an assumed dependency
+// (unicode.Is / unicode.In), written ext("...").
+// ---------------------------------------------------------------------------
+
+//@ spec UWhitespace(c int) bool = c == 0x09 || c == 0x0A || c == 0x0C || c == 0x0D || ext("unicode.Is.Zs", c)
+//@ spec UPunct(c int) bool = (c >= 0 && c < 0x80) ? IsPunct(c) : ext("unicode.In.Pc.Pd.Pe.Pf.Pi.Po.Ps", c)
+
+//@ func isUnicodeWhitespace
+//@   requires 0 <= c && c <= 0x10FFFF
+//@   ensures[equiv] result <==> UWhitespace(c)
+//@   serves C15, C11, C04
+
+//@ func isUnicodePunctuation
+//@   requires 0 <= c && c <= 0x10FFFF
+//@   ensures[equiv] result <==> UPunct(c)
+//@   serves C15, C11, C04
+
+// ---------------------------------------------------------------------------
+// Emphasis (section 6.2).  Flags: bit 1 (value 2) = can open, bit 2 (value 4)
+// = can close; typ 1 = '*', 2 = '_'.  n is the length of the original run.
+// ---------------------------------------------------------------------------
+
+//@ spec HasBit(f int, b int) bool = (f / b) % 2 == 1
+//@ spec LeftFlanking(prevWS bool, prevP bool, nextWS bool, nextP bool) bool = !nextWS && (!nextP || prevWS || prevP)
+//@ spec RightFlanking(prevWS bool, prevP bool, nextWS bool, nextP bool) bool = !prevWS && (!prevP || nextWS || nextP)
+//@ spec CanOpen(star bool, prevWS bool, prevP bool, nextWS bool, nextP bool) bool = LeftFlanking(prevWS, prevP, nextWS, nextP)
+//@     && (star || !RightFlanking(prevWS, prevP, nextWS, nextP) || prevP)
+//@ spec CanClose(star bool, prevWS bool, prevP bool, nextWS bool, nextP bool) bool = RightFlanking(prevWS, prevP, nextWS, nextP)
+//@     && (star || !LeftFlanking(prevWS, prevP, nextWS, nextP) || nextP)
+//@ -- rules 9 and 10: if one of the delimiters can both open and close, the sum of the run lengths
+//@ -- must not be a multiple of 3 unless both lengths are
+//@ spec Rule9(of int, on int, cf int, cn int) bool = !((HasBit(of, 4) || HasBit(cf, 2)) && (on + cn) % 3 == 0 && !(on % 3 == 0 && cn % 3 == 0))
+//@ spec DelimMatch(ot int, of int, on int, ct int, cf int, cn int) bool = (ot == 1 || ot == 2) && ot == ct && HasBit(of, 2) && HasBit(cf, 4) && Rule9(of, on, cf, cn)
+
+//@ func isEmphasisDelimiterMatch
+//@   requires 0 <= open.n && open.n <= 281474976710656 && 0 <= close.n && close.n <= 281474976710656
+//@   ensures[rules] result <==> DelimMatch(open.typ, open.flags, open.n, close.typ, close.flags, close.n)
+//@   serves C11, C04
+
+//@ func delimiterStackElement.openersBottomIndex
+//@   requires 1 <= elem.typ && elem.typ <= 4 && elem.n >= 0
+//@   ensures[range] 0 <= result && result < openersBottomCount
+//@   serves C11, C04
+
+//@ func verifBucketLemma
+//@   requires o.n >= 0 && c1.n >= 0 && c2.n >= 0
+//@   ensures[bucket] result
+//@   serves C11
